@@ -191,6 +191,13 @@ def obligations(tier):
             if ncomp == 1:
                 add("cp_plsr:CP_PLSR.fit", f"X-order={N + 1}", setup_s, call_s, post_s, dict(x_order=N + 1),
                     "centred data (hence loadings and predictions-minus-offset) invariant under constant shifts")
+    # ====================================================================== bounded stand-in (never counted as proved): end-to-end native survey, including the
+    # clauses no obligation above reaches (unit norm of the Y loadings, equivariance under a permutation of the samples, several PLS components)
+    from .c09 import BoundedOb
+    from . import e2e_native
+    obs.append(BoundedOb(f"{PID}/bounded/native survey: fitted regressors predict with the weights they expose; PLS invariances and sample-permutation equivariance", "tensorly.regression:CPRegressor+TuckerRegressor+CP_PLSR",
+                         lambda: e2e_native.c19(tier), dict(x_orders="2-4", targets="scalar, vector", components="1-3", samples="6-12"),
+                         "seed 0; tolerances 1e-8 (weights, predictions) / 1e-6 (shift and permutation relations); cap and convergence exits", pid=PID))
     return obs
 
 
